@@ -323,7 +323,7 @@ def jsonable(d):
 
 class C12(Prop):
     id = 'C12'
-    quick_cases = 1500
+    quick_cases = 3000
     thorough_cases = 40000
     level = 'proof'
     rule = ('base documents = the 25 shipped YAML charts and random generated charts (exported); each case injects one '
@@ -347,6 +347,12 @@ class C12(Prop):
             sc = gen.ChartGen(rnd, kn).build()
             data = json.loads(json.dumps(export_to_dict(sc)))
             origin = 'generated'
+        if rnd.random() < 0.15:
+            # an empty `states:` list beside the regions of an orthogonal state (what a tool that always writes both
+            # keys produces): it changes nothing
+            for st, _ in states_of(data):
+                if isinstance(st, dict) and st.get('parallel states') and 'states' not in st and rnd.random() < 0.7:
+                    st['states'] = []
         faults = []
         n = rnd.choice([0, 1, 1, 1, 1, 1]) if tier == 'quick' else rnd.choice([0, 1, 1, 1, 2, 2])
         for _ in range(n):
@@ -427,6 +433,16 @@ class C12(Prop):
             s = sound(case.aux['sc'])
             if s:
                 res.violations.append('accepted statechart is not sound: %s' % s)
+            if not faults:
+                # everything the document declares is registered (and nothing else)
+                try:
+                    doc = sorted(str(st.get('name')) for st, _ in states_of(load(case.payload['text'])) if isinstance(st, dict))
+                except Exception:       # noqa
+                    doc = None
+                got = sorted(map(str, case.aux['sc'].states))
+                if doc is not None and doc != got:
+                    res.violations.append('the accepted statechart has the states %s, the document declares %s'
+                                          % ([n for n in got if n not in doc][:5] or got[:8], [n for n in doc if n not in got][:5] or doc[:8]))
 
     def shrink_candidates(self, case):
         return []
